@@ -59,8 +59,10 @@ CLAIMED = {
         "proof that rename (op list regenerated from commands.rename) refuses without effect when the new name exists and otherwise moves "
         "the same bytes and touches nothing else.  Tie: audited filesystem events of real runs must be of predicted kinds; search: full "
         "recursive snapshots around every command spelling, version, intact/damaged tree and output variant.",
-        "Trusted: Coq kernel; the translators' over-approximation (name-based call resolution; validated dynamically, not proved); "
-        "standard-library effects beyond the audited primitives; no concurrent processes.",
+        "Trusted: Coq kernel; the translators' over-approximation (name-based call resolution; external calls FAIL CLOSED: an explicit allow-list of "
+        "effect-free externals, known file-creating externals are Write effects, anything else makes the caller Unknown and the checker rejects; "
+        "import-time code is analysed; roots are read from the sub-parsers' func= targets; validated dynamically, not proved); effects inside "
+        "allow-listed standard-library calls; no concurrent processes.",
         "DESIGN.md section 5 C18"),
     "C09": (
         "Coq non-interference theorem (induction over histories) + instance check_flows by vm_compute on state-cell summaries "
@@ -73,8 +75,10 @@ CLAIMED = {
         "shows no hidden channel among the channels the translator can see; the search runs random and aimed histories (create / file "
         "add, delete, grow, shrink, rewrite / edit / recheck / rebuild / magnet / info) in one interpreter against a fresh interpreter "
         "per step on the same filesystem state.",
-        "Trusted: Coq kernel; soundness of the syntactic read/write/flow extraction (the weakest link; not proved); stdout/stderr rebinding "
-        "and logging declared benign; Python offers other channels (monkey-patching, sys.modules) that only the differential looks for.",
+        "Trusted: Coq kernel; soundness of the syntactic read/write/flow extraction (the weakest link; not proved; cells = memo decorators, module-level "
+        "mutables incl. attribute/item stores, class attributes written through cls.x / Class.x / type(self).x / self.__class__.x / setattr, mutable "
+        "default arguments, function attributes, os.environ, stream rebinding); stdout/stderr rebinding and logging declared benign; Python offers other "
+        "channels (monkey-patching, sys.modules) that only the differential looks for.",
         "DESIGN.md section 5 C09"),
 }
 
@@ -119,7 +123,11 @@ CLAIMED.update({
     "C05": (
         "Coq proof (intact disk => every piece of both checker models verifies; FileHasher reproduces BEP 52 roots/layers) + trace correspondence + oracle search",
         "Machine-checked proof that for an intact disk state and recorded hashes equal to BEP 3 piece hashes (v1) / BEP 52 roots and layers (v2, hybrid) "
-        "both checker models report matched = consumed = total > 0, for every layout (empty files anywhere), piece length and hash function.  Tie as C16; "
+        "both checker models report matched = consumed = total > 0, for every layout (empty files anywhere), piece length and hash function; COMPOSITION "
+        "(Proofs/OwnMetafiles.v): for every well-formed tree, options and piece length the metafile value written by each of the six creator models "
+        "(v1, v1 --align, v2 class/assembler, hybrid class/assembler), read back through the models of Checker.__init__ / check_paths / FeedChecker / "
+        "HashChecker on a disk holding that tree, gives matched = consumed = total = payload size -- the premises are discharged, not assumed (this proof "
+        "found defect D39); find_root through root or parent (guard = known finding D33); the reported double is exactly 100.0 (Flocq).  Tie as C16; "
         "search: every metafile kind incl. reference-encoded v2 without info.length and hybrid without trailing pad, through payload root and parent "
         "directory, library and CLI.  Known finding D33 (parent directory named like the payload) is reported as KNOWN-FINDING.",
         RCTB, "DESIGN.md section 5 C05"),
@@ -138,8 +146,11 @@ CLAIMED.update({
         "Machine-checked proof, for every decoded metafile with the tool's layout, every request (Keep/Clear/Set per field) and every history of requests, "
         "that the model of edit_torrent changes no top-level key and no info key outside the named fields, leaves the info value (hence its encoding and "
         "both info-hashes) identical when no info field is named, makes named fields take effect, equals the last-write summary over any history, and "
-        "that encode/decode round-trips the file.  Tie: all 3^6 requests x 12 base metafiles through edit_torrent (bytes equal to the extracted model's) "
-        "and the CLI.  Known finding D11 (foreign layout) is reported as KNOWN-FINDING; C07_layout_needed shows the guard is necessary.",
+        "that encode/decode round-trips the file; and, over the argparse-slice model driven by the edit option table and the commands.edit "
+        "mapping REGENERATED from cli.py / commands.py, that for every argv (any flags, order, repetitions, position of the metafile) a field is Keep iff "
+        "none of its flags occurs and otherwise carries exactly the last given value (certified checker edit_table_ok + generated instance; D10 "
+        "refuted).  Tie: all 3^6 requests x 16 base metafiles (incl. unsorted foreign files and multi-tier announce-lists) through edit_torrent (bytes "
+        "equal to the extracted model's) and the CLI; run_edit_parse (vm_compute) vs cli.execute + commands.edit on generated argv.  Known finding D11 (foreign layout) is reported as KNOWN-FINDING; C07_layout_needed shows the guard is necessary.",
         "Trusted: Coq kernel; hand models Model/Edit.v, Model/Bencode.v (pyben); str.split on ASCII whitespace; argparse mapping exercised end to end.",
         "DESIGN.md section 5 C07"),
     "C10": (
@@ -155,17 +166,21 @@ CLAIMED.update({
         "Machine-checked proof, for every piece length > 0 and list of file lengths, that the model of Metadata._map_pieces assigns to piece i exactly the "
         "byte ranges whose concatenation is the i-th pl-slice of the concatenated files and covers every non-empty file; that the model of "
         "PieceNode._find_matches succeeds iff some choice of same-name same-size candidates hashes to the recorded digest and then copies exactly that "
-        "choice; that pieces skipped by the `copied` shortcut already have their file copied.  PARTIAL: completeness of the whole v1 run needs "
-        "candidates_clean (known finding D27); the v2 route (_match_v2) has no Coq model and is covered end to end only.  Known findings D27, D28 are "
+        "choice; that pieces skipped by the `copied` shortcut already have their file copied; that the model of Metadata.extract / _parse_tree "
+        "(Model/RebuildMeta.v, over the decoded metafile) lists exactly the files of the metafile at name :: path, in order; and that the model of the v2 "
+        "route _match_v2 copies an entry iff some same-name candidate has the recorded length and the recorded BEP 52 root (first such candidate), "
+        "entries being independent.  PARTIAL: completeness of the whole v1 run needs candidates_clean (known finding D27).  Known findings D27, D28 are "
         "reported as KNOWN-FINDING.",
         RBTB, "DESIGN.md section 5 C13"),
     "C14": (
-        "Coq proof (frame, idempotence and no-shrink theorems of the copypath model on an abstract filesystem; copies only for verified choices) + filesystem correspondence + snapshot search",
+        "Coq proof (frame, idempotence and no-shrink theorems of the copypath model on an abstract filesystem; copies only for verified choices, v1 and v2 routes; generated effect kinds of rebuild) + filesystem correspondence + snapshot search",
         "Machine-checked proof, for every abstract filesystem, source and destination, that the model of utils.copypath changes nothing but the destination "
         "and ancestor directories that did not exist (also when it raises half way), leaves a destination that is a directory or at least as long as the "
         "source untouched, never alters the source, is idempotent, and that a v1 rebuild calls copypath only with same-name same-size candidates of a "
-        "choice whose bytes hash to the recorded digest, never on a failed search.  Tie: copypath on real small filesystems vs the extracted model (state "
-        "of every path), match_v1 call sequences; search: full snapshots of search roots, metafiles and pre-populated destinations, repeated rebuilds.",
+        "choice whose bytes hash to the recorded digest, never on a failed search; that the v2 route copies only candidates of the recorded length whose "
+        "BEP 52 root equals the recorded root, to the path the metafile assigns, inside the destination; and (instance on the call graph regenerated from "
+        "the package) that everything reachable from the rebuild command has only Read, Mkdir and Copy effects.  Tie: copypath on real small filesystems "
+        "vs the extracted model (state of every path), match_v1 / match_v2 call sequences, Metadata(...) vs the extracted extract model; search: full snapshots of search roots, metafiles and pre-populated destinations, repeated rebuilds.",
         RBTB + " sys.addaudithook reports every mutation Python code performs (cross-checked against snapshots each run).", "DESIGN.md section 5 C14"),
     "C16": (
         "Coq proof (both checker models = zero-fill specification trace; matched/consumed are the exact sums; locality) + whole-trace correspondence + reference verifier",
@@ -180,8 +195,11 @@ CLAIMED.update({
         "Coq proof (lexical resolution of validated components stays under the destination; validator = forall safe_comp) + extracted-model correspondence + hostile-metafile search",
         "Machine-checked proof that for every destination and every list of path elements accepted by the model of Metadata._check_parts (not '', '.', "
         "'..', no separator, no NUL) the lexically resolved target is the destination extended by exactly those elements, hence inside it; that a list "
-        "with any unsafe element is refused before anything is written; and that without the validator the statement is false (witness).  Tie: "
-        "_check_parts vs safe_comp and normpath(join) vs resolve on all generated sequences; search: all hostile sequences of <= 3 (quick) / 4 (thorough) "
+        "with any unsafe element is refused before anything is written; that the model of Metadata.extract / _parse_tree (Model/RebuildMeta.v) validates "
+        "the name, EVERY element of every v1 path whatever other keys the entry carries, and EVERY key of the v2 file tree at every depth, so that every "
+        "copy target of an accepted metafile lies inside the destination; and that without the validator the statement is false (witness).  Tie: "
+        "_check_parts vs safe_comp, normpath(join) vs resolve and Metadata(...) vs the extracted extract model (refusal <-> none, entries) on all generated "
+        "sequences and shapes; search: all hostile sequences of <= 3 (quick) / 4 (thorough) "
         "elements in v1 paths, v2 tree keys and names with matching candidates present, snapshotting everything outside the destination.",
         RBTB + " Lexical resolution only: symbolic links already inside the destination are outside the theorem.", "DESIGN.md section 5 C19"),
     "C11": (
